@@ -6,9 +6,9 @@
    function / attribute read / method the code calls on such an object is taken to return (the function [prim_api]
    below).  Everything else - the control flow, which branch raises what, which attribute is written when - is what
    the translated source says and is proved equal to the hand-written models. *)
-From Coq Require Import String ZArith List Bool.
+From Coq Require Import String Ascii ZArith List Bool.
 Import ListNotations.
-From Verif Require Import Base.PyValue Model.Eval Model.PyMini.
+From Verif Require Import Base.StableSort Base.PyValue Model.Eval Model.PyMini.
 Open Scope string_scope.
 Open Scope list_scope.
 Open Scope Z_scope.
@@ -19,3 +19,252 @@ Fixpoint ref_of (refs : list (nat * string)) (name : string) : option nat :=
   | [] => None
   | (k, n) :: t => if String.eqb n name then Some k else ref_of t name
   end.
+
+(* ------------------------------------------------------------------ strings *)
+Fixpoint zs (s : string) : list Z :=
+  match s with
+  | EmptyString => []
+  | String a r => Z.of_N (Ascii.N_of_ascii a) :: zs r
+  end.
+Definition PStr (s : string) : pv := PV (VStr (zs s)).
+
+Fixpoint zeqb (a b : list Z) : bool :=
+  match a, b with
+  | [], [] => true
+  | x :: a', y :: b' => (x =? y) && zeqb a' b'
+  | _, _ => false
+  end.
+
+Fixpoint zprefix (p l : list Z) : bool :=
+  match p, l with
+  | [], _ => true
+  | x :: p', y :: l' => (x =? y) && zprefix p' l'
+  | _, _ => false
+  end.
+
+Fixpoint strip_prefix (p s : string) : option string :=
+  match p with
+  | EmptyString => Some s
+  | String a p' =>
+      match s with
+      | String b s' => if Ascii.eqb a b then strip_prefix p' s' else None
+      | EmptyString => None
+      end
+  end.
+
+(* "a|b|c" -> [a; b; c] *)
+Fixpoint split_bar (acc s : string) : list string :=
+  match s with
+  | EmptyString => [acc]
+  | String c r => if Ascii.eqb c "|"%char then acc :: split_bar EmptyString r
+                  else split_bar (acc ++ String c EmptyString) r
+  end.
+
+(* ------------------------------------------------------------------ objects
+   An object whose attributes the translated code reads is a tagged record: the qualified name of its class and
+   its attributes.  A dict is a record tagged builtins.dict whose "attributes" are its items (keys: str or int),
+   in insertion order; a later item shadows an earlier one with the same key. *)
+Definition record (tag : list Z) (fields : list (string * pv)) : pv :=
+  PTuple [PV (VStr tag); PList (map (fun nv => PTuple [PStr (fst nv); snd nv]) fields)].
+Definition dict_tag : string := "builtins.dict".
+Definition pdict (items : list (pv * pv)) : pv :=
+  PTuple [PStr dict_tag; PList (map (fun kv => PTuple [fst kv; snd kv]) items)].
+
+Definition key_eqb (a b : pv) : bool :=
+  match a, b with
+  | PV (VStr x), PV (VStr y) => zeqb x y
+  | PV (VInt x), PV (VInt y) => x =? y
+  | _, _ => false
+  end.
+
+Fixpoint assoc (k : pv) (l : list pv) : option pv :=
+  match l with
+  | [] => None
+  | PTuple [k'; v] :: t => if key_eqb k k' then Some v else assoc k t
+  | _ :: t => assoc k t
+  end.
+
+Definition get_attr (a : string) (o : pv) : res pv :=
+  match o with
+  | PTuple [PV (VStr _); PList fs] =>
+      match assoc (PStr a) fs with Some v => Ok v | None => Exc AttributeError end
+  | _ => Stuck
+  end.
+
+Definition class_of (v : pv) : list Z :=
+  match v with
+  | PV VNull => zs "builtins.NoneType"
+  | PV (VBool _) => zs "builtins.bool"
+  | PV (VInt _) => zs "builtins.int"
+  | PV (VStr _) => zs "builtins.str"
+  | PV _ => []
+  | PList _ => zs "builtins.list"
+  | PTuple [PV (VStr tag); PList _] => tag
+  | PTuple _ => zs "builtins.tuple"
+  | _ => []
+  end.
+
+(* class c is (a subclass of / registered with) sup: only the facts the translated code relies on *)
+Definition is_a (c : list Z) (sup : string) : bool :=
+  zeqb c (zs sup)
+  || (String.eqb sup "typing.Mapping" && zeqb c (zs dict_tag))
+  || (String.eqb sup "typing.Sequence"
+      && (zeqb c (zs "builtins.list") || zeqb c (zs "builtins.tuple") || zeqb c (zs "builtins.str")))
+  || (String.eqb sup "builtins.int" && zeqb c (zs "builtins.bool")).
+
+Definition isinstance (v : pv) (classes : string) : bool :=
+  existsb (is_a (class_of v)) (split_bar EmptyString classes).
+
+(* ------------------------------------------------------------------ exceptions
+   raise E(msg): the kind is a function of the class and of the leading constant text of the message (the
+   harness, too, tells the three ProgrammingErrors of parameter validation apart by their text) *)
+Definition ProgrammingError : Z := 20.
+Definition MissingParameter : Z := 21.
+Definition ParameterCount : Z := 22.
+Definition MixedParameters : Z := 23.
+Definition OtherException : Z := 99.
+
+Definition exc_kind (cls lead : list Z) : Z :=
+  if zeqb cls (zs "builtins.TypeError") then TypeError
+  else if zeqb cls (zs "builtins.ValueError") then ValueError
+  else if zeqb cls (zs "builtins.AttributeError") then AttributeError
+  else if zeqb cls (zs "beanquery.ProgrammingError") then
+    if zeqb lead (zs "query parameter missing: ") then MissingParameter
+    else if zeqb lead (zs "the query has ") then ParameterCount
+    else if zeqb lead (zs "positional and named parameters cannot be mixed") then MixedParameters
+    else ProgrammingError
+  else OtherException.
+
+(* ------------------------------------------------------------------ collections *)
+Fixpoint dedupe (seen l : list pv) : list pv :=
+  match l with
+  | [] => []
+  | x :: t => if existsb (key_eqb x) seen then dedupe seen t else x :: dedupe (x :: seen) t
+  end.
+
+Fixpoint all_truthy (l : list pv) : res bool :=
+  match l with
+  | [] => Ok true
+  | v :: t => bind (pv_truthy v) (fun b => if b then all_truthy t else Ok false)
+  end.
+Fixpoint any_truthy (l : list pv) : res bool :=
+  match l with
+  | [] => Ok false
+  | v :: t => bind (pv_truthy v) (fun b => if b then Ok true else any_truthy t)
+  end.
+
+Fixpoint enum_from (i : Z) (l : list pv) : list pv :=
+  match l with
+  | [] => []
+  | x :: t => PTuple [PInt i; x] :: enum_from (i + 1) t
+  end.
+
+Fixpoint int_keys (l : list pv) : option (list Z) :=
+  match l with
+  | [] => Some []
+  | PV (VInt z) :: t => match int_keys t with Some r => Some (z :: r) | None => None end
+  | _ => None
+  end.
+
+(* sorted(xs, key=...) given the list of keys: Python's sort is stable; Base/StableSort.isort is the stable
+   insertion sort the models use *)
+Definition sorted_by (xs keys : list pv) : res pv :=
+  match int_keys keys with
+  | Some ks =>
+      if Nat.eqb (length ks) (length xs)
+      then Ok (PList (map snd (isort (on (@fst Z pv) Z.leb) (combine ks xs))))
+      else Stuck
+  | None => Stuck
+  end.
+
+Definition getitem (o k : pv) : res pv :=
+  match o with
+  | PTuple [PV (VStr tag); PList fs] =>
+      if zeqb tag (zs dict_tag)
+      then match assoc k (rev fs) with Some v => Ok v | None => Exc KeyError end
+      else Stuck
+  | PList l | PTuple l => match k with PV (VInt i) => index_at l i | _ => Exc TypeError end
+  | PV VNull => Exc TypeError                    (* 'NoneType' object is not subscriptable *)
+  | _ => Stuck
+  end.
+
+(* ------------------------------------------------------------------ the primitives
+   [strlib]: what the string / shell library functions compute; each tie instantiates it with the functions of the
+   model it is tied to (Model/Naming.strip, Model/Shell.strip/lower/cmd_parseline).
+   [msg]: text building (f-strings, ', '.join(sorted(..))) is an uninterpreted oracle: no theorem depends on a
+   message's text beyond the leading constant that selects the exception kind. *)
+Record strlib := {
+  sl_strip : list Z -> list Z;
+  sl_lower : list Z -> list Z;
+  sl_parseline : list Z -> option (list Z * list Z * list Z);   (* cmd.Cmd.parseline *)
+  sl_getattr : list Z -> option nat;                            (* getattr(self, name): the bound method, if any *)
+}.
+
+Definition prim_api (L : strlib) (msg : string -> list pv -> pv) (name : string) (args : list pv) : res pv :=
+  match strip_prefix "attr:" name with
+  | Some a => match args with [o] => get_attr a o | _ => Stuck end
+  | None =>
+  match strip_prefix "isinstance:" name with
+  | Some cs => match args with [v] => Ok (PBool (isinstance v cs)) | _ => Stuck end
+  | None =>
+  if String.eqb name "raise" then
+    match args with [PV (VStr cls); PV (VStr lead); _] => Exc (exc_kind cls lead) | _ => Stuck end
+  else if String.eqb name "builtins.set" then
+    match args with [PList l] => Ok (PList (dedupe [] l)) | _ => Stuck end
+  else if String.eqb name "set.difference" then
+    match args with
+    | [PList a; PList b] => Ok (PList (filter (fun x => negb (existsb (key_eqb x) b)) a))
+    | _ => Stuck
+    end
+  else if String.eqb name "builtins.all" then
+    match args with [PList l] => bind (all_truthy l) (fun b => Ok (PBool b)) | _ => Stuck end
+  else if String.eqb name "builtins.any" then
+    match args with [PList l] => bind (any_truthy l) (fun b => Ok (PBool b)) | _ => Stuck end
+  else if String.eqb name "builtins.dict" then
+    match args with [PList items] => Ok (PTuple [PStr dict_tag; PList items]) | _ => Stuck end
+  else if String.eqb name "builtins.enumerate" then
+    match args with [PList l] => Ok (PList (enum_from 0 l)) | _ => Stuck end
+  else if String.eqb name "sorted_by" then
+    match args with [PList xs; PList keys] => sorted_by xs keys | _ => Stuck end
+  else if String.eqb name "getitem" then
+    match args with [o; k] => getitem o k | _ => Stuck end
+  else if String.eqb name "builtins.id" then
+    (* the identity of an AST node is its source position: two nodes of one statement never share it *)
+    match args with [o] => bind (get_attr "parseinfo" o) (get_attr "pos") | _ => Stuck end
+  else if String.eqb name "call:walk" then
+    match args with [q] => get_attr "$walk" q | _ => Stuck end
+  else if String.eqb name "call:keys" then
+    match args with
+    | [PTuple [PV (VStr tag); PList fs]] =>
+        if zeqb tag (zs dict_tag)
+        then Ok (PList (map (fun kv => match kv with PTuple (k :: _) => k | _ => PNone end) fs)) else Stuck
+    | [PV VNull] => Exc AttributeError
+    | [PList _] => Exc AttributeError
+    | _ => Stuck
+    end
+  else if String.eqb name "call:strip" then
+    match args with [PV (VStr s)] => Ok (PV (VStr (sl_strip L s))) | _ => Stuck end
+  else if String.eqb name "call:lower" then
+    match args with [PV (VStr s)] => Ok (PV (VStr (sl_lower L s))) | _ => Stuck end
+  else if String.eqb name "call:startswith" then
+    match args with [PV (VStr s); PV (VStr p)] => Ok (PBool (zprefix p s)) | _ => Stuck end
+  else if String.eqb name "binop:add" then
+    match args with [PV (VStr a); PV (VStr b)] => Ok (PV (VStr (a ++ b))) | _ => Stuck end
+  else if String.eqb name "super.parseline" then
+    match args with
+    | [_; PV (VStr line)] =>
+        match sl_parseline L line with
+        | None => Ok (PTuple [PNone; PNone; PV (VStr line)])
+        | Some (c, a, l) => Ok (PTuple [PV (VStr c); PV (VStr a); PV (VStr l)])
+        end
+    | _ => Stuck
+    end
+  else if String.eqb name "builtins.getattr" then
+    match args with
+    | [PSelf; PV (VStr n); dflt] => match sl_getattr L n with Some k => Ok (PRef k) | None => Ok dflt end
+    | _ => Stuck
+    end
+  else if String.eqb name "fstring" || String.eqb name "call:join" || String.eqb name "builtins.sorted" then
+    Ok (msg name args)
+  else Stuck
+  end end.
